@@ -155,9 +155,9 @@ THOROUGH_FS = ["pt", "none", "serde"]
 
 RULES = [
     ("ONCE-CONV", rule_once_conv, 4),
-    ("ONCE-HOOK", rule_once_hook, 9),
-    ("ERR-PASS", rule_err_pass, 5),
-    ("POST-HOOK-FRAME", rule_post_hook_frame, 6),
+    ("ONCE-HOOK", rule_once_hook, 6),
+    ("ERR-PASS", rule_err_pass, 3),
+    ("POST-HOOK-FRAME", rule_post_hook_frame, 3),
 ]
 
 MANIFEST = {
